@@ -3,8 +3,8 @@ CONSTANTS
   Buckets = {"m", "d"}
   K = 3
   MaxSteps = 8
-  SeedOnOpen = FALSE
-  MetaKeepsMark = TRUE
+  SeedOnOpen = TRUE
+  MetaKeepsMark = FALSE
 VIEW View
 CHECK_DEADLOCK FALSE
 INVARIANTS
